@@ -220,16 +220,16 @@ def engine_choice(ctx):
     n_fl = n_dr = 0
     for e in calls(fa, FL[1]):
         n_fl += 1
-        ok = any(c == fill and p for c, p in e.guards) and not any(c == V('as_pixels') and p for c, p in e.guards)
+        ok = e.under(fill) and not e.under(V('as_pixels'))
         ctx.check(ok, R, f'fill-lower-engine#{n_fl}', ctx.where(fa, e),
                   found=[(T.show(c), p) for c, p in e.guards], expected='constructed only under fill_lower',
                   reason='symmetric completion must be generated exactly when fill_lower holds')
     for e in calls(fa, DR[1]):
-        under_pix = any(c == V('as_pixels') and p for c, p in e.guards)
+        under_pix = e.under(V('as_pixels'))
         if under_pix:
             continue
         n_dr += 1
-        ok = any(c == fill and not p for c, p in e.guards)
+        ok = e.under(fill, False)
         ctx.check(ok, R, f'direct-engine#{n_dr}', ctx.where(fa, e),
                   found=[(T.show(c), p) for c, p in e.guards], expected='constructed only under not fill_lower',
                   reason='square storage must be read as stored')
